@@ -872,7 +872,10 @@ class Overlay(Widget, WidgetContainerMixin, WidgetContainerListContentsMixin, ty
         left, right, top, bottom = self.calculate_padding_filler(real_size, focus)
         bottom_c = self.bottom_w.render(real_size)
         if not bottom_c.cols() or not bottom_c.rows():
-            return CompositeCanvas(bottom_c)
+            # top_w is not part of the canvas, but the size of this rendering may depend on it
+            canv = CompositeCanvas(bottom_c)
+            canv.set_depends([self.top_w, self.bottom_w])
+            return canv
 
         top_c = self.top_w.render(self.top_w_size(real_size, left, right, top, bottom), focus)
         top_c = CompositeCanvas(top_c)
